@@ -111,18 +111,20 @@ CHECKS = {
                    "sweep through the public API). get_mut / mem::replace have trusted specs.",
     ),
     "C06": dict(
-        engine="verus-units", design_ref="DESIGN.md §10 'C06 contract notes'", technique="deductive verification (Verus/Z3) of function contracts, loop invariants and lemmas on the extracted real disk writer and loader, over an abstract disk image",
-        text="For every database state, every key/value length and both snapshot modes: the REAL NodeDrive::storage_data_disk produces exactly the per-state write "
-             "plan of the statement (New / reclaimed: one value record and one key record appended; Updated: value appended and the key's version and address "
-             "rewritten in place, or re-appended when reclaiming; Deleted: version -1 written in place, nothing when reclaiming; Ok: untouched), every address it "
-             "records - on disk and in memory - is the offset at which that record really starts, in-place writes stay inside the key file, and memory keeps every "
-             "value and version with every written key marked persisted; write_value / write_key / update_key produce the exact byte layouts; the REAL loader "
-             "create_db_from_file_name turns any well-formed image into exactly the map the image means (records with version -1 skipped, later records win, each value "
-             "taken from the address its key record names, all entries Ok); and the writer's layout and the loader's layout are inverse (round-trip lemmas). "
-             "A bounded native sweep runs set/remove/increment/snapshot/restart histories on the real code and compares the reloaded database with the snapshotted one.",
-        level_note="The unbounded part is per call: writer == plan, loader == meaning of the image, layouts inverse. That the plan's image of an INCREMENTAL snapshot loads "
-                   "back to the snapshotted state needs a cross-snapshot invariant that is assumed as a precondition, not established; only the bounded sweep "
-                   "covers whole histories. Metadata (id, strategy), file-system glue and torn files are not decided.",
+        engine="verus-units", design_ref="DESIGN.md §10 'C06 contract notes'", technique="deductive verification (Verus/Z3) of function contracts, loop invariants and an invariant over snapshot histories on the extracted real disk writer, loader and store operations, over an abstract disk image",
+        text="For every database state, every key/value length and both snapshot modes: (1) the REAL NodeDrive::storage_data_disk produces exactly the per-state write "
+             "plan of the statement, every address it records - on disk and in memory - is the offset at which that record really starts, in-place writes stay inside "
+             "the key file and touch only the 12-byte slots of the keys being updated or removed, memory keeps every value and version; write_value / write_key / "
+             "update_key produce the exact byte layouts; (2) the REAL loader create_db_from_file_name turns any sound image into exactly the map the image means; "
+             "(3) writer layout and loader layout are inverse; (4) an invariant `rel` (every persisted key owns exactly the record at its remembered address, every "
+             "record that is not a tombstone belongs to a key in memory, a key marked in sync holds on disk what memory holds) is ESTABLISHED by the space-reclaiming "
+             "snapshot and by the loader, KEPT by the incremental snapshot (loop invariant of the real function) and by the real set_value / remove_value / inc_value, "
+             "and IMPLIES that the files left by either snapshot mode load back to exactly the live keys, values and versions of memory (no removed key resurrected, "
+             "no other key altered); (5) no accepted write or increment leaves a live key at version -1, the on-disk deletion marker. A bounded native sweep runs "
+             "set/remove/increment/snapshot/restart histories on the real code and compares the reloaded database with the snapshotted one.",
+        level_note="Sequential semantics over a trusted disk model. Each link (establish / keep / implies) is a discharged obligation on real code or a lemma; their "
+                   "composition over a whole history is an induction a reader does, not a trace theorem. File-system glue (rename / remove / open), metadata files, the "
+                   "snapshot driver and torn files are trusted or out of scope.",
     ),
     "C07": dict(
         engine="verus-units", design_ref="DESIGN.md §10 'C07 contract notes'", technique="deductive verification (Verus/Z3) of function contracts, loop invariants and termination measures on the extracted real election_ops functions (single-node clauses only)",
